@@ -32,6 +32,7 @@ ORDER = {
 }
 ALL = ["C%02d" % i for i in range(1, 21)]
 
+EXTRA2 = "--extra2" in sys.argv
 EXTRA = "--extra" in sys.argv
 ONLY_EXTRA = EXTRA
 LEN_CONSTS = ["FIXED_HEADER_LEN", "PROTOCOL_LEN", "FRAG_ID_LEN", "TOTAL_LENGTH_LEN", "CRC_LEN", "FIRST_FRAG_LEN"]
@@ -129,6 +130,27 @@ def mutants_of(path, text):
         if st.endswith(";") and not st.startswith(("let ", "return", "pub ", "const ", "static ", "break", "continue", "}")) and "{" not in st:
             if re.match(r"(self\.[\w.]+\s*(=|\+=|-=)|[\w.]+\s*(\+=|-=)|\w+\s*=\s|self\.[\w.]+\(|[\w\[\].]+\.copy_from_slice\()", st):
                 add("del", l[:len(l) - len(l.lstrip())] + "/* deleted */")
+        if EXTRA2:
+            # swapped adjacent arguments / tuple fields that are plain identifiers or simple field accesses
+            for m in re.finditer(r"([(,]\s*)(&?[\w.]+)(\s*,\s*)(&?[\w.]+)(\s*[,)])", code):
+                a, b = m.group(2), m.group(4)
+                if a != b and not a[0].isdigit() and not b[0].isdigit() and "(" in code and not re.fullmatch(r"[\sA-Z_0-9,{};]+", code):
+                    add("argswap %s<->%s" % (a, b), l[:m.start(2)] + b + m.group(3) + a + l[m.end(4):])
+            # an Option written as None / a remembered label not remembered
+            for m in re.finditer(r"= Some\((\w+)\);", code):
+                add("some->none", l[:m.start()] + "= None;" + l[m.end():])
+            # identifiers that name the same kind of thing
+            for a, b in (("label", "current_label"), ("current_label", "label"), ("label_len", "LABEL_6_B_LEN"), ("protocol_type", "total_len"),
+                         ("frag_id", "0"), ("calculed_pdu_len", "gse_len"), ("pdu_len", "calculed_pdu_len"), ("header_ext_len", "0"),
+                         ("pdu_len_encapsulated", "pdu_len_remaining"), ("len_pdu_frag", "0")):
+                for m in re.finditer(r"(?<![\w.])" + a + r"\b(?!\s*[:=][^=])", code):
+                    if re.match(r"\s*let\s", code) and m.start() < code.find("="):
+                        continue
+                    add("ident2 %s->%s" % (a, b), l[:m.start()] + b + l[m.end():])
+            # slice bounds off by one
+            for m in re.finditer(r"\[([\w. +*-]+)\.\.([\w. +*-]+)\]", code):
+                add("slice hi-1", l[:m.start(2)] + m.group(2) + " - 1" + l[m.end(2):])
+                add("slice lo+1", l[:m.start(1)] + m.group(1) + " + 1" + l[m.end(1):])
         if EXTRA:
             out_before = len(out)
             # identifiers that are easily confused
@@ -268,7 +290,7 @@ def main():
             stride = int(args.pop(0))
         elif a == "--list":
             limit = -1
-        elif a == "--extra":
+        elif a in ("--extra", "--extra2"):
             pass
     muts = []
     for f in files:
@@ -283,6 +305,8 @@ def main():
             uniq.append(m)
     if EXTRA:
         uniq = [m for m in uniq if m["kind"].split(" ")[0] in ("ident", "err", "giveback", "swap", "guard")]
+    if EXTRA2:
+        uniq = [m for m in uniq if m["kind"].split(" ")[0] in ("argswap", "some->none", "ident2", "slice")]
     muts = uniq[offset::stride]
     if limit == -1:
         for m in muts:
